@@ -199,6 +199,17 @@ def c05_one(ts, tsname, x, backend):
         ipath, dpath = results["infer"][1], results["detect"][1]
         if ipath == dpath and results["cast_to_inferred"] is not x:
             F(f"inference applied no coercion (path {ipath}) but cast_to_inferred returned a different object", "inferred-not-same-object")
+    # history: an equal but distinct object is processed next - its no-op cast returns IT, not something remembered from the first call
+    if isinstance(x, pd.Series) and results["cast_to_detected"] is x:
+        try:
+            twin = x.copy(deep=True)
+            r2 = ts.cast_to_detected(twin)
+            i2 = ts.cast_to_inferred(twin) if results["cast_to_inferred"] is x else twin
+        except Exception:  # noqa
+            r2 = i2 = None
+        if r2 is not None and (r2 is not twin or i2 is not twin):
+            F(f"after the same call on an equal series, cast_to_{'detected' if r2 is not twin else 'inferred'} of a distinct equal series ({len(x)} rows, dtype {x.dtype}) "
+              "did not return the object it was given (the result is shared with the earlier call)", "twin-not-same-object")
     return fails
 
 
@@ -238,8 +249,8 @@ def decode_chain(path, v):
         elif (a, b) == ("String", "URL"):
             cur = urlparse(cur)
         elif (a, b) == ("String", "Path"):
-            w = pathlib.PureWindowsPath(cur)
-            cur = w if w.is_absolute() else pathlib.PurePosixPath(cur)
+            # the flavour is chosen per column by the transformer; either flavour's parse of the text is an exact decoding
+            cur = EitherPath(cur)
         elif (a, b) == ("String", "IPAddress"):
             cur = ipaddress.ip_address(cur)
         elif (a, b) == ("String", "UUID"):
@@ -253,8 +264,21 @@ def decode_chain(path, v):
     return cur
 
 
+class EitherPath:
+    """the exact decodings of a path text: its PureWindowsPath and its PurePosixPath parse"""
+
+    def __init__(self, text):
+        import pathlib
+        self.text, self.options = text, (pathlib.PureWindowsPath(text), pathlib.PurePosixPath(text))
+
+    def __repr__(self):
+        return f"{self.options[0]!r} or {self.options[1]!r}"
+
+
 def elem_equal(a, b):
     try:
+        if isinstance(b, EitherPath):
+            return any(type(a) is type(o) and a == o for o in b.options)
         if isnull(a) and isnull(b):
             return True
         if hasattr(a, "equals") and hasattr(b, "geom_type"):
